@@ -155,5 +155,13 @@ let run_op (op : string) (args : string list) : string =
     string_of_res
       (fun l -> String.concat " | " (List.sort_uniq compare (List.map string_of_schema l)))
       (used_types (schema_of_sexp (parse_sexp t)))
+  (* ---- MaxSize ---- *)
+  | "maxsize", [ t ] ->
+    (match max_size (mty_of_sexp (parse_sexp t)) with
+     | Some n -> string_of_int (int_of_n n)
+     | None -> "norow")
+  | "msval", [ t; v ] ->
+    let v = value_of_sexp (parse_sexp v) in
+    (if mhas v (mty_of_sexp (parse_sexp t)) then "1 " else "0 ") ^ string_of_int (List.length (enc v))
   | _ -> failwith ("unknown op " ^ op)
 
